@@ -576,35 +576,42 @@ func (s *Store) gcIndex(ctx context.Context) error {
 		tagged.Add(desc.Digest)
 	}
 
-	// index referrer manifests
-	for ref, desc := range refMap {
-		if ref != desc.Digest.String() || tagged.Contains(desc.Digest) {
-			continue
-		}
-		// check if the referrers manifest can traverse to the existing graph
-		subject := &desc
-		for {
-			var err error
-			subject, err = manifestutil.Subject(ctx, s.storage, *subject)
-			if err != nil {
-				if errors.Is(err, errdef.ErrNotFound) {
-					// the chain ends in missing content: not traversable
+	// index referrer manifests; repeat until no more referrers are found, as a
+	// referrer may refer to content that is only reachable from another referrer
+	kept := set.New[digest.Digest]()
+	for found := true; found; {
+		found = false
+		for ref, desc := range refMap {
+			if ref != desc.Digest.String() || tagged.Contains(desc.Digest) || kept.Contains(desc.Digest) {
+				continue
+			}
+			// check if the referrers manifest can traverse to the existing graph
+			subject := &desc
+			for {
+				var err error
+				subject, err = manifestutil.Subject(ctx, s.storage, *subject)
+				if err != nil {
+					if errors.Is(err, errdef.ErrNotFound) {
+						// the chain ends in missing content: not traversable
+						break
+					}
+					return err
+				}
+				if subject == nil {
 					break
 				}
-				return err
-			}
-			if subject == nil {
-				break
-			}
-			if graph.Exists(*subject) {
-				if err := tagResolver.Tag(ctx, deleteAnnotationRefName(desc), desc.Digest.String()); err != nil {
-					return err
+				if graph.Exists(*subject) {
+					if err := tagResolver.Tag(ctx, deleteAnnotationRefName(desc), desc.Digest.String()); err != nil {
+						return err
+					}
+					plain := descriptor.Plain(desc)
+					if err := graph.IndexAll(ctx, s.storage, plain); err != nil {
+						return err
+					}
+					kept.Add(desc.Digest)
+					found = true
+					break
 				}
-				plain := descriptor.Plain(desc)
-				if err := graph.IndexAll(ctx, s.storage, plain); err != nil {
-					return err
-				}
-				break
 			}
 		}
 	}
